@@ -2,7 +2,7 @@
 import os
 
 from vlib import mirutil
-from vlib.facts import walk, peel, place_path, CheckError, REPO
+from vlib.facts import walk, peel, place_path, CheckError, REPO, lit_int
 from vlib.paths import paths, normal_paths
 from vlib.report import RuleResult
 from rules.nopanic import snippet, sites_of, const_val
@@ -338,6 +338,27 @@ def index_sites(F):
                 if hn:
                     r.ob(True)
                     r.info.append("assumed: cursor ≤ metadata.len() at `%s` (range-from slice)" % snip)
+                    continue
+                # `let first = self.curr_idx + 1; .. metadata[first..]` after this very function has already indexed
+                # `metadata[curr_idx]` on every path to here (directly or through get_curr_func): curr_idx < len, so first ≤ len
+                from vlib.facts import uncond_before as _ub, binding_site as _bs
+                for x in walk(fn["body"]):
+                    if not (x.get("k") == "Index" and x["sp"][0] == s["sp"][0] and peel(x["index"]).get("k") == "Struct" and peel(x["index"]).get("adt", "").endswith("RangeFrom")):
+                        continue
+                    st_e = peel(peel(x["index"])["fields"][0][1])
+                    if st_e.get("k") == "Path" and st_e.get("res", {}).get("r") == "local":
+                        _p, init_, _k = _bs(fn["body"], st_e["res"]["hid"])
+                        st_e = peel(init_) if isinstance(init_, dict) else {}
+                    if not (st_e.get("k") == "Binary" and st_e.get("op") == "+" and (place_path(st_e["a"]) or "").endswith("self.curr_idx") and lit_int(peel(st_e["b"]).get("lit")) == 1):
+                        continue
+                    prior = [y for y in walk(fn["body"]) if (y.get("k") == "MethodCall" and y["method"] == "get_curr_func" and (place_path(y["recv"]) or "") == "self")
+                             or (y.get("k") == "Index" and (place_path(y["base"]) or "").endswith("metadata") and (place_path(y["index"]) or "").endswith("self.curr_idx"))]
+                    if any(_ub(fn["body"], y, x)[0] for y in prior):
+                        r.ob(True)
+                        r.info.append("`%s`: start = cursor + 1 after the cursor's own entry was read (cursor < len)" % snip)
+                        hn = [x]
+                        break
+                if hn:
                     continue
             r.ob(False, {"site": key})
             r.violate(key, "%s:%d" % (fn["file"], s["sp"][0]),
